@@ -53,11 +53,12 @@ for a in range(10):
         if b not in (3,):
             GROUPS.append(shape(24, (a, b), "quick" if (a in REP and b in REP) else "thorough"))
 
-for base, fn, n, tr in ((16, "tokens_hex_string_to_int", 18, "quick"), (8, "tokens_octal_string_to_int", 24, "quick"),
-                        (2, "tokens_binary_string_to_int", 34, "quick"), (2, "tokens_binary_string_to_int", 66, "thorough")):
+for base, fn, n, tr in ((16, "tokens_hex_string_to_int", 6, "quick"), (8, "tokens_octal_string_to_int", 6, "quick"),
+                        (2, "tokens_binary_string_to_int", 6, "quick"), (16, "tokens_hex_string_to_int", 10, "thorough")):
     GROUPS.append(Group(name="C04/literal.base%d.len%d" % (base, n), unity="C04/u_lit.cpp", entry="h_literal",
-                        functions=[(fn, "core/tokens.cpp", "harness; loop closed by unwinding %d with unwinding assertions (complete for strings of <= %d characters%s)" % (n + 3, n, ", i.e. every 64-bit value" if (base, n) != (2, 34) else ", i.e. every 32-bit value and separators"))],
-                        defines=["BASE=%d" % base, "LITLEN=%d" % n], unwind=n + 3, checks=["--bounds-check", "--pointer-check"], timeout=1500, tier=tr))
+                        functions=[(fn, "core/tokens.cpp", "harness; bounded: strings of <= %d characters, unwinding %d with unwinding assertions" % (n, n + 3))],
+                        defines=["BASE=%d" % base, "LITLEN=%d" % n], unwind=n + 3, checks=["--bounds-check", "--pointer-check"], timeout=1500, tier=tr,
+                        bounded="digit strings of at most %d characters (all characters symbolic)" % n))
 
 LEVEL = "proof"
 TRUSTED = ["+ - * on int64_t wrap (two's complement) in the shipped binary as they do in CBMC's bit-vector semantics"]
